@@ -257,8 +257,8 @@ def breakage_cases(draw):
     option = draw(st.sampled_from(OPTIONS))
     prof = SITE_PROFILES.get(option, PROFILE)
     mset = draw(mibgen.module_sets(prof))
-    extra = draw(st.lists(st.sampled_from(OPTIONS), max_size=4, unique=True))
-    return {'mod': mset['modules'][0], 'option': option, 'extra': extra, 'first': draw(st.booleans())}
+    extra = [o for o in OPTIONS if draw(st.booleans())]
+    return {'mod': mset['modules'][0], 'option': option, 'extra': list(draw(st.permutations(extra)))}
 
 
 def breakage_prop(case, rec):
@@ -273,7 +273,7 @@ def breakage_prop(case, rec):
     others = [o for o in case['extra'] if o not in need and buildable(need | set([o]))]
     if 'supportIndex' in others and 'supportSmiV1Keywords' not in need | set(others):
         others.remove('supportIndex')
-    on_extra = (sorted(need) + others) if case.get('first') else (others + sorted(need))
+    on_first, on_last = sorted(need) + others, others + sorted(need)
     off = sorted(need - set([option]))
     if not buildable(off):
         off = sorted(set(off) - set(['supportIndex']))
@@ -283,7 +283,7 @@ def breakage_prop(case, rec):
         broken = inject(m, site)
         text = mibgen.render_simple(broken)
         exp = mibgen.normalize_tree([mibgen.expected_tree(broken)])
-        for opts in (on, on_extra):
+        for opts in ((on, on_first, on_last) if others else (on,)):
             try:
                 st_, res = parse(opts, text)
             except Exception as e:
@@ -317,9 +317,29 @@ GROUP_POOL = (['(', 'SIZE', '(', '0', '..', '8', ')', ')'], ['(', '0', '..', '7'
               ['DESCRIPTION', '"d"'], ['STATUS', 'current'], ['IMPLIED'])
 
 
+MUTANT_PROFILE = mibgen.profile(dialects=('v2', 'v2', 'v1'), modules=(1, 1), decls=(3, 10), texts='short',
+                                kinds=('table', 'table', 'scalar', 'type', 'value', 'og', 'typefam'))
+
+
+def _sequence_member_types(toks):
+    """Positions of the type tokens inside SEQUENCE { name Type, ... } blocks."""
+    out = []
+    i = 0
+    while i < len(toks) - 1:
+        if toks[i] == 'SEQUENCE' and toks[i + 1] == '{':
+            j = i + 2
+            while j < len(toks) and toks[j] != '}':
+                if isinstance(toks[j], str) and (toks[j] in TYPE_WORDS or toks[j][:1].isupper()) and toks[j] not in ('OCTET', 'OBJECT'):
+                    out.append(j)
+                j += 1
+            i = j
+        i += 1
+    return out
+
+
 @st.composite
 def mutant_cases(draw):
-    mset = draw(mibgen.module_sets(PROFILE))
+    mset = draw(mibgen.module_sets(MUTANT_PROFILE if draw(st.booleans()) else PROFILE))
     m = mset['modules'][0]
     small, big = draw(option_sets())
     if m['dialect'] == 'v1':
@@ -333,6 +353,9 @@ def mutant_cases(draw):
         kind = draw(st.sampled_from(('group-after-type',) * 6 + ('group-anywhere', 'delete', 'duplicate', 'replace')))
         if kind == 'group-after-type':
             pos = [k for k, t in enumerate(toks) if isinstance(t, str) and (t in TYPE_WORDS or (t[:1].isupper() and '-' not in t and t.isalnum()))]
+            seqpos = _sequence_member_types(toks)
+            if seqpos and draw(st.booleans()):
+                pos = seqpos      # the abbreviated syntaxes of SEQUENCE members have grammar rules of their own
             if not pos:
                 continue
             muts.append(['group', draw(st.sampled_from(pos)) + 1, draw(st.integers(0, 4))])
